@@ -549,6 +549,24 @@ func (in *Interp) opaqueVsPlain(op, plain *StrV) (*Term, bool) {
 		}
 		return &StrV{b: ts}
 	}
+	if cs == "" {
+		switch op.op.kind {
+		case "itoa", "formatint", "formatuint", "quote", "hostport", "ipstr", "ipnet", "timefmt", "durstr":
+			return tc.tFalse, true // these never print as the empty string
+		}
+	}
+	if strings.HasPrefix(op.op.kind, "sprintf:") {
+		// the literal text before the first verb must be a prefix of the result
+		f := strings.TrimPrefix(op.op.kind, "sprintf:")
+		lit := f
+		if i := strings.IndexByte(f, '%'); i >= 0 {
+			lit = f[:i]
+		}
+		if !strings.HasPrefix(cs, lit) {
+			return tc.tFalse, true
+		}
+		return nil, false
+	}
 	switch op.op.kind {
 	case "ipnet":
 		_, n, err := net.ParseCIDR(cs)
